@@ -412,8 +412,12 @@ def update (E : Env) (now : Nat) (n : Node) (u : Url) (f : Fetch) : Res (CredRec
     | .err e => .err e
     | .panic s => .panic s
 
+/-- the refresh condition of `statusList` as a decision over three facts about the cached record:
+    `(cr.Expires != nil && expired) || olderThanMaxAge` — the age test is NOT under the `Expires != nil` guard -/
+def refreshDecision (hasExpiry expired tooOld : Bool) : Bool := (hasExpiry && expired) || tooOld
+
 def stale (E : Env) (now : Nat) (rec : CredRec) : Bool :=
-  (match rec.expires with | some e => e < now | none => false) || rec.createdAt + E.maxAge < now
+  refreshDecision rec.expires.isSome (match rec.expires with | some e => e < now | none => false) (rec.createdAt + E.maxAge < now)
 
 /-- does `statusList` call `download` for this URL in this state? -/
 def needsFetch (E : Env) (now : Nat) (n : Node) (u : Url) : Bool :=
